@@ -234,6 +234,9 @@ def server_execute(case, stats):
     with_literal = lib_steps != rsteps
 
     def new_transform():
+        if len(out) % 3 == 2:
+            # the same program handed over in transform (profile) order, ``reverse`` left at its default
+            return lib(c2.HttpDataTransform, list(lib_steps[::-1]), build="output", what="HttpDataTransform(steps in transform order, build='output')")
         if len(out) % 2:  # keyword and positional form of (steps, reverse, build)
             return lib(c2.HttpDataTransform, list(lib_steps), True, "output", what="HttpDataTransform(steps, True, 'output')")
         return lib(c2.HttpDataTransform, list(lib_steps), reverse=True, build="output", what="HttpDataTransform(reverse)")
